@@ -52,6 +52,32 @@ def check(tier, replay=None):
     plist += engcheck.make_programs(rng.fork("sidehead"), nprog // 4, genf=lambda g: gen.gen_program(g, {"shape": "sidehead"}), filt=lambda p: len(p["rels"]) >= 4)
     progs = {f"p{i}": p for i, p in enumerate(plist)}
     cases = []
+    # forced shape "late-late": a rule with three (four) body clauses over relations of its own recursive stratum whose head tuple has ONE derivation, in which the
+    # row of the first clause is already in total while the rows of two LATER clauses become new in the same iteration (semi-naive variant [total, delta, total+delta]):
+    #   m(x) <-- a(x);  b(x) <-- m(x);  c(x) <-- m(x);  hit(x) <-- a(x), b(x), c(x);  a(y) <-- hit(x), next(x, y)
+    for k in range(3 if tier == "quick" else 8):
+        r3 = rng.fork(f"latelate{k}")
+        four = k % 3 == 2
+        rels = [{"arity": 1}, {"arity": 2}, {"arity": 1}, {"arity": 1}, {"arity": 1}, {"arity": 1}] + ([{"arity": 1}] if four else [])
+        X = [("v", 0)]
+        body = [("cl", 0, X, []), ("cl", 3, X, []), ("cl", 4, X, [])] + ([("cl", 6, X, [])] if four else [])
+        body = [body[0]] + r3.shuffle(body[1:]) if k % 2 == 0 else r3.shuffle(body)
+        rules = [{"heads": [(2, [("var", 0)])], "body": [("cl", 0, X, [])]},
+                 {"heads": [(3, [("var", 0)])], "body": [("cl", 2, X, [])]},
+                 {"heads": [(4, [("var", 0)])], "body": [("cl", 2, X, [])]}] + \
+                ([{"heads": [(6, [("var", 0)])], "body": [("cl", 3, X, [])]}] if four else []) + \
+                [{"heads": [(5, [("var", 0)])], "body": body},
+                 {"heads": [(0, [("var", 1)])], "body": [("cl", 5, X, []), ("cl", 1, [("v", 0), ("v", 1)], [])]}]
+        pid = f"ll{k}"
+        progs[pid] = {"rels": rels, "rules": rules}
+        for j in range(4 if tier == "quick" else 12):
+            r4 = r3.fork(f"i{j}")
+            n = r4.range(3, 7)
+            nxt = [(i, i + 1) for i in range(n)] + [(r4.below(n), r4.below(n + 1)) for _ in range(r4.below(3))]
+            inp = {0: [(0,)] + ([(r4.below(n),)] if r4.chance(1, 3) else []), 1: list(dict.fromkeys(nxt))}
+            inp[0] = list(dict.fromkeys(inp[0]))
+            inst = f"{pid}_{j}"
+            cases.append(engcheck.Case(pid, inst, history(inst, pid, inp), {"inp": inp}))
     for ci, (fn, c) in enumerate(core.corpus("C01")):
         pid = f"c{ci}"
         progs[pid] = eng.from_json(c["prog"])
@@ -59,7 +85,7 @@ def check(tier, replay=None):
             inp = eng.from_json(inp); inst = f"{pid}_{j}"
             cases.append(engcheck.Case(pid, inst, history(inst, pid, inp), {"inp": inp}))
     for pid, p in progs.items():
-        if pid.startswith("c"): continue
+        if pid.startswith("c") or pid.startswith("ll"): continue
         for j in range(ninp):
             inp = gen.gen_input(rng.fork(f"{pid}i{j}"), p)
             inst = f"{pid}_{j}"
